@@ -268,6 +268,97 @@ Section C12_column.
   Qed.
 End C12_column.
 
+(** The explicit and implicit tendencies of all four equation classes assembled
+    over ABSTRACT horizontal operators (Model/PrimEq.v, Section ModalAssembly):
+    to_modal and clip are the same under both scales, div/curl of the second
+    scale are [kg] times and the Laplacian [kg^2] times those of the first (the
+    non-dimensional radius differs); only homogeneity and extensionality of the
+    operators are assumed, plus additivity of the Laplacian and "lap kills the
+    constant mode" for the log-pressure shift.  With the dimension assignment
+    (ku velocity, kr rates, kT temperature, kg inverse length, kR gas constants,
+    kL length; ku*kg = kr, kR*kT*kg = ku*kr, kL*kg = 1 - all true for
+    [factor s d], see the proofs of the nodal theorems) every tendency is
+    covariant: temperature Theta/T, divergence and vorticity 1/T^2, moist and
+    cloud classes included (specific humidity dimensionless). *)
+Section C12_modal.
+  Context {F : Type} {o : Ops F} {Fc : FieldC o}.
+  Variables (ku kr kT kg kR kL : F).
+  Hypothesis H_rate : ku * kg = kr.
+  Hypothesis H_accel : kR * kT * kg = ku * kr.
+  Hypothesis H_len : kL * kg = 1.
+  Hypothesis feqb_iff : forall a b : F, feqb a b = true <-> a = b.
+  Hypothesis kT_nz : kT <> 0.
+  Hypothesis kR_nz : kR <> 0.
+  Variables W P : Type.
+  Variable toM : (P -> F) -> W -> F.
+  Variables divc curlc divc' curlc' : (W -> F) -> (W -> F) -> W -> F.
+  Variables lap lap' clip : (W -> F) -> W -> F.
+  Hypothesis toM_scal : forall k f w, toM (fun p => k * f p) w = k * toM f w.
+  Hypothesis toM_ext : forall f g, (forall p, f p = g p) -> forall w, toM f w = toM g w.
+  Hypothesis divc_scal : forall k a b w, divc (fun v => k * a v) (fun v => k * b v) w = k * divc a b w.
+  Hypothesis divc_ext : forall a a' b b', (forall v, a v = a' v) -> (forall v, b v = b' v) -> forall w, divc a b w = divc a' b' w.
+  Hypothesis curlc_scal : forall k a b w, curlc (fun v => k * a v) (fun v => k * b v) w = k * curlc a b w.
+  Hypothesis curlc_ext : forall a a' b b', (forall v, a v = a' v) -> (forall v, b v = b' v) -> forall w, curlc a b w = curlc a' b' w.
+  Hypothesis lap_scal : forall k a w, lap (fun v => k * a v) w = k * lap a w.
+  Hypothesis lap_ext : forall a a', (forall v, a v = a' v) -> forall w, lap a w = lap a' w.
+  Hypothesis lap_add : forall a b w, lap (fun v => a v + b v) w = lap a w + lap b w.
+  Hypothesis clip_scal : forall k a w, clip (fun v => k * a v) w = k * clip a w.
+  Hypothesis clip_ext : forall a a', (forall v, a v = a' v) -> forall w, clip a w = clip a' w.
+  Hypothesis divc'_def : forall a b w, divc' a b w = kg * divc a b w.
+  Hypothesis curlc'_def : forall a b w, curlc' a b w = kg * curlc a b w.
+  Hypothesis lap'_def : forall a w, lap' a w = kg * kg * lap a w.
+  Variable c : @PEcfg F.
+  Variable m : @Moist F.
+  Hypothesis R_nz : cR c <> 0.
+  Hypothesis kappa_nz : ckappa c <> 0.
+  Variable X : P -> @NCol F.
+  Notation c' := (scale_cfg kT kR c).
+  Notation m' := (scale_moist kR m).
+  Notation X' := (fun p => scale_ncol ku kr kT kg (X p)).
+
+  Theorem C12_modal_tendencies_covariant
+      (q qc qi gqx gqy : P -> nat -> F) (lapn : P -> F) (orog orog' hum hum' : W -> F) (grav : F)
+      (dv dv' Tm Tm' : nat -> W -> F) (lnps lnps' e : W -> F) shift r w :
+    (r < cK c)%nat ->
+    (forall v, orog' v = kL * orog v) -> (forall v, hum' v = kr * kr * hum v) ->
+    (forall k v, dv' k v = kr * dv k v) -> (forall k v, Tm' k v = kT * Tm k v) ->
+    (forall v, lnps' v = lnps v + shift * e v) -> (forall v, lap e v = 0) ->
+    let rtm := fun p => rt_moist c m (X p) (q p) in
+    let rtm' := fun p => rt_moist c' m' (scale_ncol ku kr kT kg (X p)) (q p) in
+    let rtc := fun p => rt_cloud c m (X p) (q p) (qc p) (qi p) in
+    let rtc' := fun p => rt_cloud c' m' (scale_ncol ku kr kT kg (X p)) (q p) (qc p) (qi p) in
+    temp_tendency_explicit W P toM divc' clip c' X' r w = kT * kr * temp_tendency_explicit W P toM divc clip c X r w /\
+    temp_tendency_explicit_moist W P toM divc' clip c' m' X' q r w
+      = kT * kr * temp_tendency_explicit_moist W P toM divc clip c m X q r w /\
+    div_tendency_explicit W P toM divc' lap' clip c' (ku * kr * grav) X' rtm' orog' hum' r w
+      = kr * kr * div_tendency_explicit W P toM divc lap clip c grav X rtm orog hum r w /\
+    div_tendency_explicit W P toM divc' lap' clip c' (ku * kr * grav) X' rtc' orog' hum' r w
+      = kr * kr * div_tendency_explicit W P toM divc lap clip c grav X rtc orog hum r w /\
+    vort_tendency_explicit W P toM curlc' clip c' X' rtm' hum' r w
+      = kr * kr * vort_tendency_explicit W P toM curlc clip c X rtm hum r w /\
+    humidity_div_modal W P toM lap' c' m' X' q (fun p => scol kg (gqx p)) (fun p => scol kg (gqy p)) (fun p => kg * kg * lapn p) r w
+      = kr * kr * humidity_div_modal W P toM lap c m X q gqx gqy lapn r w /\
+    humidity_curl_modal W P toM c' m' X' (fun p => scol kg (gqx p)) (fun p => scol kg (gqy p)) r w
+      = kr * kr * humidity_curl_modal W P toM c m X gqx gqy r w /\
+    temp_tendency_implicit W c' dv' r w = kT * kr * temp_tendency_implicit W c dv r w /\
+    div_tendency_implicit W lap' c' Tm' lnps' r w = kr * kr * div_tendency_implicit W lap c Tm lnps r w.
+  Proof.
+    intros Hr Horo Hhum Hdv HTm Hl He rtm rtm' rtc rtc'.
+    assert (RTm : forall p j, rtm' p j = kR * kT * rtm p j).
+    { intros p j. exact (proj1 (proj2 (rt_homogeneous ku kr kT kg kR c kR_nz R_nz m (X p) (q p) (qc p) (qi p) j))). }
+    assert (RTc : forall p j, rtc' p j = kR * kT * rtc p j).
+    { intros p j. exact (proj2 (proj2 (rt_homogeneous ku kr kT kg kR c kR_nz R_nz m (X p) (q p) (qc p) (qi p) j))). }
+    split; [eapply temp_tendency_explicit_covariant; eassumption|].
+    split; [eapply temp_tendency_explicit_moist_covariant; eassumption|].
+    split; [eapply div_tendency_explicit_covariant; eassumption|].
+    split; [eapply div_tendency_explicit_covariant; eassumption|].
+    split; [eapply vort_tendency_explicit_covariant; eassumption|].
+    split; [eapply (proj1 (humidity_modal_covariant ku kr kT kg kR H_rate H_accel kR_nz W P toM lap lap' toM_scal toM_ext lap_scal lap_ext lap'_def c R_nz X m q gqx gqy lapn r w Hr))|].
+    split; [eapply (proj2 (humidity_modal_covariant ku kr kT kg kR H_rate H_accel kR_nz W P toM lap lap' toM_scal toM_ext lap_scal lap_ext lap'_def c R_nz X m q gqx gqy lapn r w Hr))|].
+    eapply implicit_tendencies_covariant; eassumption.
+  Qed.
+End C12_modal.
+
 (** Held-Suarez forcing (Model/Forcings.v), over an ordered field with a
     positive temperature scale: Rayleigh and Newtonian rates scale like 1/T,
     the equilibrium temperature (including the max with minT) like Theta, p/p0
@@ -298,7 +389,46 @@ Section C12_held_suarez.
     - unfold P'. rewrite R1, A1. exact (proj1 (hs_nodal_tendencies_homogeneous kr kT (factor s d_vel) _ cu cl 0 0 0 0)).
     - rewrite A2. exact (hs_temperature_forcing_homogeneous kp kr kT 0 P sigma cl sl pk logp tref tvar HT).
   Qed.
+
+  (** The statement in the property's words, for EVERY power function [pw]
+      (x |-> x ** kappa in the code) and EVERY [lg] (log in the code) - nothing is
+      assumed about them, they are applied to the scale-invariant p/p0 -:
+      Held-Suarez evaluated on non-dimensionalised inputs is the
+      non-dimensionalisation of Held-Suarez evaluated in SI, for every scale
+      with positive entries. *)
+  Theorem C12_held_suarez_nondim_commutes (pw lg : F -> F) (s : scale) (P : HSParams F) sigma ps cl sl :
+    scale_positive s -> hp_p0 P <> 0 ->
+    hs_kv (nondim_hs s P) sigma = nondim s d_rate (hs_kv P sigma) /\
+    hs_kt (nondim_hs s P) sigma cl = nondim s d_rate (hs_kt P sigma cl) /\
+    hs_p_over_p0 (nondim_hs s P) sigma (nondim s d_pressure ps) = hs_p_over_p0 P sigma ps /\
+    hs_teq_of_ps pw lg (nondim_hs s P) sigma (nondim s d_pressure ps) cl sl
+      = nondim s d_temp (hs_teq_of_ps pw lg P sigma ps cl sl).
+  Proof. exact (hs_nondim_commutes pw lg s P sigma ps cl sl). Qed.
 End C12_held_suarez.
+
+(** over the reals with the library's power, logarithm and exponential, starting
+    from the log surface pressure the model carries: lnps under the scale is
+    lnps_SI - ln(factor of pressure) *)
+Theorem C12_held_suarez_R (s : @scale R) (P : HSParams R) (kappa sigma lnps_si cl sl : R) :
+  (0 < sL s)%R -> (0 < sT s)%R -> (0 < sM s)%R -> (0 < sK s)%R -> hp_p0 P <> 0%R ->
+  let pw := fun x : R => Rpower x kappa in
+  hs_teq_of_ps pw ln (nondim_hs s P) sigma (exp (lnps_si - ln (factor s d_pressure))) cl sl
+    = (hs_teq_of_ps pw ln P sigma (exp lnps_si) cl sl / factor s d_temp)%R /\
+  hs_kv (nondim_hs s P) sigma = (hs_kv P sigma / factor s d_rate)%R /\
+  hs_kt (nondim_hs s P) sigma cl = (hs_kt P sigma cl / factor s d_rate)%R.
+Proof.
+  intros H1 H2 H3 H4 Hp0 pw.
+  assert (Hpos : scale_positive s).
+  { repeat split; apply Rleb_false; assumption. }
+  assert (Hfp : (0 < factor s d_pressure)%R).
+  { apply Rleb_false. exact (factor_pos s d_pressure Hpos). }
+  assert (E : exp (lnps_si - ln (factor s d_pressure)) = nondim s d_pressure (exp lnps_si)).
+  { unfold nondim. cbn. unfold Rminus. rewrite exp_plus, exp_Ropp, exp_ln by exact Hfp. reflexivity. }
+  rewrite E.
+  destruct (C12_held_suarez_nondim_commutes pw ln s P sigma (exp lnps_si) cl sl Hpos Hp0) as (A & B & _ & D).
+  repeat split; assumption.
+Qed.
+
 
 Section C12_lnps.
   Context {F : Type} {o : Ops F} {Fc : FieldC o}.
@@ -416,6 +546,61 @@ Proof.
     apply Qc_is_canon; vm_compute; reflexivity.
 Qed.
 
+(** Non-vacuity of the Held-Suarez theorems over Qc: a positive scale, the default
+    Held-Suarez parameters, and a point where the maximum with minT is not active
+    (so the covariance of the max is exercised on its non-trivial branch) and one
+    where it is; [pw] = squaring and [lg] = identity stand for the power and log. *)
+Example C12_held_suarez_hyps_satisfiable :
+  let q := fun z : Q => Q2Qc z in
+  let s := mkscale (q 2) (q 3) (q 5) (q (7 # 2)) in
+  let P := mkHSParams (q 100000) (q (7 # 10)) (q (1 # 86400)) (q (1 # 3456000)) (q (1 # 345600)) (q 200) (q 315) (q 60) (q 10) in
+  let pw := fun x : Qc => x * x in let lg := fun x : Qc => x in
+  scale_positive s /\ hp_p0 P <> 0 /\
+  hs_teq_of_ps pw lg P (q (9 # 10)) (q 100000) (q 1) (q 0) <> hp_minT P /\
+  hs_teq_of_ps pw lg P (q (1 # 10)) (q 100000) (q 1) (q 0) = hp_minT P /\
+  hs_teq_of_ps pw lg (nondim_hs s P) (q (9 # 10)) (nondim s d_pressure (q 100000)) (q 1) (q 0)
+    = nondim s d_temp (hs_teq_of_ps pw lg P (q (9 # 10)) (q 100000) (q 1) (q 0)).
+Proof.
+  cbv zeta. split; [repeat split; vm_compute; reflexivity|].
+  split; [intro H; vm_compute in H; discriminate H|].
+  split; [intro H; vm_compute in H; discriminate H|].
+  split; apply Qc_is_canon; vm_compute; reflexivity.
+Qed.
+
+(** Non-vacuity of the operator hypotheses of [C12_modal_tendencies_covariant]
+    over Qc: two modes / two nodes, to_modal = identity, a "Laplacian" that
+    annihilates constants, div / curl mixing the two modes; ku = 3, kg = 2,
+    kr = 6, kL = 1/2, kT = 5, kR = 9/5. *)
+Example C12_modal_hyps_satisfiable :
+  let q := fun z : Q => Q2Qc z in
+  let ku := q 3 in let kg := q 2 in let kr := q 6 in let kL := q (1 # 2) in let kT := q 5 in let kR := q (9 # 5) in
+  let toM := fun (f : bool -> Qc) (w : bool) => f w in
+  let divc := fun (a b : bool -> Qc) w => a w + b (negb w) in
+  let curlc := fun (a b : bool -> Qc) w => a (negb w) - b w in
+  let lap := fun (a : bool -> Qc) w => a w - a (negb w) in
+  let clip := fun (a : bool -> Qc) w => a w in
+  ku * kg = kr /\ kR * kT * kg = ku * kr /\ kL * kg = 1 /\ kT <> 0 /\ kR <> 0 /\
+  (forall k f w, toM (fun p => k * f p) w = k * toM f w) /\
+  (forall k a b w, divc (fun v => k * a v) (fun v => k * b v) w = k * divc a b w) /\
+  (forall k a b w, curlc (fun v => k * a v) (fun v => k * b v) w = k * curlc a b w) /\
+  (forall k a w, lap (fun v => k * a v) w = k * lap a w) /\
+  (forall a b w, lap (fun v => a v + b v) w = lap a w + lap b w) /\
+  (forall w, lap (fun _ => 1) w = 0) /\
+  (forall k a w, clip (fun v => k * a v) w = k * clip a w) /\
+  (forall a a' b b', (forall v, a v = a' v) -> (forall v, b v = b' v) -> forall w, divc a b w = divc a' b' w) /\
+  (forall a a', (forall v, a v = a' v) -> forall w, lap a w = lap a' w).
+Proof.
+  cbv zeta.
+  split; [apply Qc_is_canon; vm_compute; reflexivity|].
+  split; [apply Qc_is_canon; vm_compute; reflexivity|].
+  split; [apply Qc_is_canon; vm_compute; reflexivity|].
+  split; [intro H; vm_compute in H; discriminate H|].
+  split; [intro H; vm_compute in H; discriminate H|].
+  repeat split; intros; cbn; try ring.
+  - now rewrite H, H0.
+  - now rewrite !H.
+Qed.
+
 Print Assumptions C12_factor_homomorphism.
 Print Assumptions C12_welldim_homogeneous.
 Print Assumptions C12_scale_independence.
@@ -427,9 +612,14 @@ Print Assumptions C12_trajectory_covariant.
 Print Assumptions C12_column_relations.
 Print Assumptions C12_column_hypotheses_discharged.
 Print Assumptions C12_column_steps_covariant.
+Print Assumptions C12_modal_tendencies_covariant.
 Print Assumptions C12_held_suarez_homogeneous.
+Print Assumptions C12_held_suarez_nondim_commutes.
+Print Assumptions C12_held_suarez_R.
 Print Assumptions C12_log_pressure_shift.
 Print Assumptions C12_p_over_p0_invariant.
 Print Assumptions C12_p_over_p0_invariant_R.
 Print Assumptions C12_hyps_satisfiable.
 Print Assumptions C12_column_hyps_satisfiable.
+Print Assumptions C12_held_suarez_hyps_satisfiable.
+Print Assumptions C12_modal_hyps_satisfiable.
